@@ -8,6 +8,8 @@
 //	               fragment, extended (see setfuncs.go)
 //	E5 LoaderFuncs.v : the loader lookup of template_sets.go as terms of the same fragment,
 //	               extended once more (see loaderfuncs.go)
+//	E6 TagFuncs.v : the Execute methods of the branching tags (if, firstof, ifequal, ifnotequal)
+//	               as terms of the same fragment, extended by integer + and > (see tagfuncs.go)
 //
 // Constructs are located by role (a package var's initialiser, the arguments of the
 // strings.Replace calls in a named function, ...), never by line.  If a construct
@@ -453,6 +455,7 @@ func main() {
 	wrappers := genWrappers(p)
 	setfuncs := genSetFuncs(p)
 	loaderfuncs := genLoaderFuncs(p)
+	tagfuncs := genTagFuncs(p)
 
 	if len(problems) > 0 {
 		for _, s := range problems {
@@ -460,7 +463,7 @@ func main() {
 		}
 	}
 	outputs := [][2]string{{"Tables.v", tables}, {"Scalar.v", scalar}, {"Wrappers.v", wrappers}, {"SetFuncs.v", setfuncs},
-		{"LoaderFuncs.v", loaderfuncs}}
+		{"LoaderFuncs.v", loaderfuncs}, {"TagFuncs.v", tagfuncs}}
 	for _, o := range outputs {
 		name, content := o[0], o[1]
 		ch, err := writeIfChanged(filepath.Join(*out, name), []byte(content))
